@@ -4,6 +4,13 @@ import json, os
 ENV = "GOFLAGS=-mod=mod GOPROXY=off GOSUMDB=off GOTOOLCHAIN=local"
 SETUP = f"cd /verif && env -u GOWORK {ENV} go build -o bin/astisubcheck ./cmd/astisubcheck"
 TECH = {
+ "C01": "evaluation and inverse check of the constant escape tables; extraction and comparison of the start-tag / end-tag switch tables and of the capture literal from SSA; tag nesting of the writer's constants; writer/reader timestamp constants",
+ "C02": "extraction of key→field tables from the writer's constant+field concatenations and the reader's switch arms, compared per separator; dominance of the region loop over the cue loop; escape tables; timestamp constants and inline-timestamp pattern",
+ "C03": "struct-tag comparison of the In/Out XML types; wiring extraction In→model→Out from SSA stores; regexp/syntax parse of the offset-time grammar against the handled metrics; language-table usage and coverage; timestamp constants",
+ "C04": "extraction of column-name→field tables from five style functions, three event functions and four script-info functions (SSA switch arms, stores, reads) and their comparison; literal agreement (booleans, Marked, section headers, colour prefix/radix)",
+ "C05": "extraction of writer part widths and reader slice offsets per field (GSI 1024 / TTI 128 byte layouts) and their comparison; evaluation of the BiMap character tables and code maps; metadata wiring in both directions; frame-rate divisor support rule",
+ "C06": "control-dependence (dominator-tree) check of the guard atoms on every sink of the teletext text path; evaluation of the charset / national-option / colour tables",
+ "C16": "extraction of the (separator, digits) constants writers pass to formatDuration and readers to parseDuration, per format; call-graph check that each codec reaches only its own wrappers; constant evaluation of the inline-timestamp pattern on the writer's shape; STL frame-rate field tracing",
  "C07": "extraction and agreement of the Open/Write extension switch tables and of the CLI sub-command table from SSA; dominance check of the empty-list guard; non-nil dataflow over the writers' closure",
  "C08": "forward must-dataflow of non-nil / numeric facts over access paths (nil dereference, nil-map store), difference-constraint bounds proofs for every index/slice, division / type-assertion / explicit-panic rules, loop progress classification; interprocedural parameter and result summaries",
  "C09": "effect analysis (frame of Add) + expression-tree isomorphism of the StartAt/EndAt updates + delete-rewind path rule + CLI table",
@@ -19,6 +26,13 @@ TECH = {
  "C20": "whole-package effect analysis: no store to package-level state outside init; zero-rules for go/select/unsafe",
 }
 TEXT = {
+ "C01": "Static decision of structural necessary conditions of SRT fidelity: escape/unescape tables exact inverses; tag-state start/end symmetry and capture completeness; writer nests and emits only tags the reader handles; separator/scale agreement. No read/write equality over documents is decided.",
+ "C02": "Static decision of structural necessary conditions of WebVTT fidelity: cue-setting and region-setting key→field agreement writer↔reader; regions emitted before cues; escape tables; timestamp agreement incl. inline timestamps. Tag-stack semantics, comments, voices, round trip are not decided.",
+ "C03": "Static decision of structural necessary conditions of TTML fidelity: XML names agree between input and output structs; the 24 style attributes are wired In→model→Out through the same field; metric exhaustiveness; language map used both ways and covering the STL languages; timestamp agreement. Time-expression values, <br/> splitting and parent links are not decided.",
+ "C04": "Static decision of structural necessary conditions of SSA fidelity: column name→field agreement across reader, format builder, row writer and model converters (23 style, 11 event, 15 script-info names); boolean / Marked literal, section header and colour-form agreement. Format-permutation behaviour, text splitting, idempotent rewrite are not decided.",
+ "C05": "Static decision of structural necessary conditions of STL fidelity: GSI/TTI byte layouts agree writer↔reader field by field; Latin writer tables consistent with the reader table; code maps inverse; metadata wiring; frame-rate divisor guarded. One genuine table defect ('$' ↔ 0x24) is a recorded known finding. Timecode quantisation, diacritics, style runs are not decided.",
+ "C06": "Static decision of the exclusion clause only: text can reach a cue only under PID / stream-id / data-unit-id / framing / Hamming / magazine / receiving / row-range / start-box / parity guards; table well-formedness and the colour-code table. Page scheduling, timing and termination behaviour are not decided.",
+ "C16": "Static decision of the agreement clauses: per format writer separator ∈ reader separators, millisecond scale 3, 2 or 3 written digits, each codec uses its own wrappers, STL formatter and parser share the frame-rate field. Truncation, canonical fields, monotonicity and the 30 fps frame loss are value-level and not decided.",
  "C07": "Static decision of the structural clauses of any-to-any conversion: dispatch tables of Open/Write agree, are case-insensitive and default to the invalid-extension error; writers refuse an empty list before writing; the CLI table equals the documented one; writers tolerate every optional part other readers leave unset (no unguarded dereference in the writers' closure). Cue preservation across format pairs is not decided.",
  "C08": "Static all-paths decision, over the closure of the six readers, Open, the five writers and the exported helpers, that none of the panic classes Go code can raise itself (nil dereference, nil-map store, index/slice out of range, integer division by zero, failing single-result type assertion, explicit panic/Fatal) is reachable, modulo 34 audited residue sites each with a written reason (some backed by supporting rules), and that every loop has a progress argument. Panics inside dependencies, memory exhaustion and the linear-time bound are not decided.",
  "C09": "Static all-paths decision of necessary structural clauses of Add: writes only StartAt, EndAt and the item slice; both boundaries get the same update; the in-place deletion rewinds the index; CLI sync → Add(-s). The arithmetic (exact d, clamp, which cues die) is not decided.",
